@@ -70,7 +70,7 @@ P('C04', claimed=True, level='exploration', drivers=['vf.drivers.C04'],
   level_note='Signature introspection (inspect) is outside the provable subset: bounded only.')
 
 P('C05', claimed=True, level='other',
-  contracts=['base_clock_loops'], drivers=['vf.drivers.C05'],
+  contracts=['base_clock_loops', 'base_clock_sched', 'base_stream'], drivers=['vf.drivers.C05'],
   level_text=('Data-flow obligations on the real clock loop bodies: a task that returns a number is '
               're-scheduled exactly once at its scheduled time plus that number (no occurrence of the '
               'physical time in the term), logical time is set to the scheduled time before the task '
@@ -130,8 +130,12 @@ P('C09', claimed=True, level='proof',
               'finite-set cardinality axioms, dict/itertools.count models. __iter__ is a generator: '
               'bounded only. Priorities are finite reals.'))
 
-P('C10', claimed=True, level='exploration', drivers=['vf.drivers.C10'],
-  level_text=('Differential run-time contract: generated programs are run once under NrtMain and once '
+P('C10', claimed=True, level='other', contracts=['base_clock_sched'], drivers=['vf.drivers.C10'],
+  level_text=('The mode switch refines one contract: for SystemClock.sched/sched_abs, TempoClock.sched/'
+              'sched_abs and AppClock.sched (NRT) both branches are proved to schedule the same task at the '
+              'same logical time, and the NRT wake-up re-schedules at scheduled time + delta through the '
+              'clock map like the RT loop bodies (C05/C08). '
+              'Differential run-time contract: generated programs are run once under NrtMain and once '
               'under RtMain with injected jitter (separate processes) and compared per routine and '
               'logical time; two fresh NRT runs must give byte-identical scores; seeded random streams '
               'must not depend on other routines.'),
